@@ -308,10 +308,11 @@ class AsyncWorld:
         self._spawn(runner(), req)
         return req
 
-    def ws(self, query, headers=None, path='/engine.io/', host='h', upgrade_headers=True):
+    def ws(self, query, headers=None, path='/engine.io/', host='h', upgrade_headers=True, fail_accept=False):
         ws = WS(len(self.wss), query, dict(headers or {}))
         self.wss.append(ws)
         ws.t_start = self.clock.now
+        ws.fail_accept = fail_accept      # the peer is gone before the WebSocket handshake can be answered
         hdrs = []
         if host is not None:
             hdrs.append((b'host', host.encode()))
@@ -364,6 +365,9 @@ class AsyncWorld:
                     for cb in getattr(ws, 'on_event', []):
                         cb()
                 return
+            if t == 'websocket.accept' and ws.fail_accept:
+                sent.append(dict(ev, _refused=True))
+                raise OSError('client disconnected before the handshake was answered')
             sent.append(ev)
             if t == 'websocket.accept':
                 ws.accepted = True
